@@ -292,10 +292,16 @@ def xor_family():
     return fam
 
 
+def andor_family():
+    """l1 & l2 | l3 & l4 over the literals of p, q, r (no parentheses needed: & binds tighter than |)"""
+    lits = [["p"], ["q"], ["r"], ["~", "p"], ["~", "q"], ["~", "r"]]
+    return [a + ["&"] + b + ["|"] + c + ["&"] + d for a, b, c, d in itertools.product(lits, repeat=4)]
+
+
 def full_family():
-    """the deterministic input family of C20: every in-language token string up to 5 tokens over {p,q,r,true,false,~,&,|,^,(,)}
-    and the 256 xor shapes x ^ (y op z) / (y op z) ^ x over p, q, ~p, ~q"""
-    return well_formed_upto(5) + xor_family()
+    """the deterministic input family of C20: every in-language token string up to 5 tokens over {p,q,r,true,false,~,&,|,^,(,)},
+    the 256 xor shapes x ^ (y op z) / (y op z) ^ x over p, q, ~p, ~q, and the 1296 disjunctions of two conjunctions of literals of p, q, r"""
+    return well_formed_upto(5) + xor_family() + andor_family()
 
 
 NAME_SETS = [["p", "q", "r"], ["foo", "Bar", "a"], ["q", "pq", "p", "Z"], ["b", "a", "ab", "B"]]
@@ -320,7 +326,8 @@ def expression_space(payload, for_search=False):
         good.append((ts, spaced(ts, rng)))
     # the operand shapes of the xor rules (x ^ (y op z) and mirrored), where the optimizer's known findings live
     fam = xor_family()
-    picked = fam if thorough else rng.sample(fam, 60)
+    ao = andor_family()
+    picked = (fam + ao) if thorough else (rng.sample(fam, 60) + rng.sample(ao, 160))
     good += [(ts, spaced(ts)) for ts in picked]
     family_keys |= {" ".join(ts) for ts in picked}
     bad = []
